@@ -129,12 +129,21 @@ def format_records(args):
     if kind == 'scen':
         scen, params = a, b
         mem = [[x, y] for x, y in scen['mem']]
-        for fmt in ('intel_hex', 'hex', 'minhex'):
-            case, _ = asmcheck.build_case(scen, params, pretty=fmt)
+        for fmt in ('intel_hex', 'hex', 'minhex', 'listing'):
+            case, pos = asmcheck.build_case(scen, params, pretty=fmt)
             obs = runner.run_case(case)
             if obs['status'] != 'ok' or obs.get('pretty') is None:
                 continue
-            recs.append({'fmt': fmt, 'items': formats.tokenise(fmt, obs['pretty']), 'mem': mem, 'what': ' / '.join(asmcheck._fmt(l) for l in scen['prog'])})
+            what = ' / '.join(asmcheck._fmt(l) for l in scen['prog'])
+            if fmt == 'listing':
+                # the statements the specification's assembly produced: [file, line, addr, data] (no bytes shown for muted ones)
+                stmts = [{'file': pos[o['i']][0] if o['i'] in pos else pos[str(o['i'])][0], 'line': (pos[o['i']] if o['i'] in pos else pos[str(o['i'])])[1],
+                          'addr': o['addr'], 'data': [] if o['muted'] else list(o['bytes'])} for o in scen['objs'] if o['i'] != 0]
+                # predefined data blocks are listed under the ISA definition's file name, line 0
+                stmts += [{'file': case.get('config_name', 'isa.yaml'), 'line': 0, 'addr': o['addr'], 'data': list(o['bytes'])} for o in scen['objs'] if o['i'] == 0]
+                recs.append({'fmt': fmt, 'items': formats.tokenise_listing(obs['pretty']), 'mem': mem, 'stmts': stmts, 'check_stmts': True, 'what': what})
+            else:
+                recs.append({'fmt': fmt, 'items': formats.tokenise(fmt, obs['pretty']), 'mem': mem, 'stmts': [], 'check_stmts': False, 'what': what})
     else:
         import shutil
         import tempfile
@@ -142,7 +151,7 @@ def format_records(args):
         cfg, src, inc = a
         runner.import_repo()
         from bespokeasm.assembler.engine import Assembler
-        for fmt in ('intel_hex', 'hex', 'minhex'):
+        for fmt in ('intel_hex', 'hex', 'minhex', 'listing'):
             d = tempfile.mkdtemp(prefix='vc16r_', dir=runner.SCRATCH_ROOT)
             try:
                 out, pp = os.path.join(d, 'o.bin'), os.path.join(d, 'o.txt')
@@ -154,7 +163,9 @@ def format_records(args):
                     if e['ev'] == 'p2' and e['has_bytes'] and not e['muted']:
                         for i, v in enumerate(e['bytes']):
                             mem[e['addr'] + i] = v
-                recs.append({'fmt': fmt, 'items': formats.tokenise(fmt, open(pp).read()), 'mem': [[x, mem[x]] for x in sorted(mem)], 'what': os.path.basename(src)})
+                txt = open(pp).read()
+                recs.append({'fmt': fmt, 'items': formats.tokenise_listing(txt) if fmt == 'listing' else formats.tokenise(fmt, txt), 'mem': [[x, mem[x]] for x in sorted(mem)],
+                             'stmts': [], 'check_stmts': False, 'what': os.path.basename(src)})
             finally:
                 shutil.rmtree(d, ignore_errors=True)
     return recs
@@ -170,7 +181,7 @@ def run_format_traces(chk, scen_jobs):
     recs = [r for rs in runner.pmap(format_records, jobs) for r in rs]
     # corruptions of the first records: each must be rejected
     bad = []
-    for r in recs[:12]:
+    for r in recs[:16]:
         if not r['items']:
             continue
         it = json.loads(json.dumps(r['items']))
@@ -178,6 +189,11 @@ def run_format_traces(chk, scen_jobs):
             it[0]['chk'] = (it[0]['chk'] + 1) % 256
         elif r['fmt'] == 'hex':
             it[0]['addr'] += 16
+        elif r['fmt'] == 'listing':
+            rows = [x for x in it if x['k'] == 'row' and x['line'] >= 0]
+            if not rows:
+                continue
+            rows[-1]['addr'] += 1
         else:
             it.insert(0, {'k': 'addr', 'a': 1, 'data': []}) if it[0]['k'] == 'data' else it[0].update(a=it[0]['a'] + 1)
         bad.append(dict(r, items=it, what='CORRUPTED ' + r['what']))
@@ -187,7 +203,7 @@ def run_format_traces(chk, scen_jobs):
     acc = set()
     B = 400
     for off in range(0, len(allr), B):
-        part = [{'fmt': r['fmt'], 'items': r['items'], 'mem': r['mem']} for r in allr[off:off + B]]
+        part = [{'fmt': r['fmt'], 'items': r['items'], 'mem': r['mem'], 'stmts': r['stmts'], 'check_stmts': r['check_stmts']} for r in allr[off:off + B]]
         fd, path = tempfile.mkstemp(prefix='vfmt_', suffix='.json', dir=runner.SCRATCH_ROOT)
         with os.fdopen(fd, 'w') as f:
             json.dump(part, f)
@@ -218,8 +234,8 @@ def run(chk):
                 'address->byte map and must equal the specification memory map (bytes of unmuted lines), the image must equal '
                 'the specification image, and the listing must show every compilable line exactly once with its address and '
                 'bytes (none for muted lines). Non-trivial = has a byte-producing line.')
-    chk.rule += (' spec/Formats.tla states the three machine formats as decoding machines (Intel HEX records with checksum, base records and a single final end-of-file record; dump rows of sixteen columns; minhex running address); TLC checks FunctionalWhenOk, IhxShape, PrefixMonotone, NoInventedBytes on generated outputs, and recorded outputs of a sample of scenarios and of the repository programs - tokenised without judgement - must satisfy Describes(fmt, items, memory) in spec/Trace_Formats.tla; corrupted records must be rejected.')
-    chk.assumptions = ['the listing decoder in harness/formats.py is trusted; the other three formats are decoded both by harness/formats.py and by spec/Formats.tla',
+    chk.rule += (' spec/Formats.tla states the three machine formats as decoding machines (Intel HEX records with checksum, base records and a single final end-of-file record; dump rows of sixteen columns; minhex running address); TLC checks FunctionalWhenOk, IhxShape, PrefixMonotone, NoInventedBytes on generated outputs, and recorded outputs of a sample of scenarios and of the repository programs - tokenised without judgement - must satisfy Describes(fmt, items, memory) in spec/Trace_Formats.tla; the listing is a fourth machine (file headers, statement rows, continuation rows) and must also satisfy ShowsStatements: exactly the statements of the specification's assembly, each once, with its address and bytes (none for muted lines, predefined data under the ISA file); corrupted records must be rejected.')
+    chk.assumptions = ['all four formats are decoded both by harness/formats.py and by spec/Formats.tla (the harness tokenisers split text into numbers without judging it)',
                        'minhex is read as: address lines set the running address, which starts at 0']
     chk.exhaustive = True
     FMT_SAMPLE = []
